@@ -570,6 +570,13 @@ Definition as_log_meta (m : meta) : option (lv * bytes) :=
 Definition builder_log_max (w : option (option lv)) : option (option lv) :=
   if gen_builder_init_sets_max then Some (match w with Some f => f | None => gen_builder_default_max end) else None.
 
+(** `log::max_level()` after the same call in a process that ALREADY has a logger (the install fails, the call returns
+    `Err`): the level in force before ([cur]) if the builder publishes its level only after a successful install. *)
+Definition init_again_log_max (cur : option lv) (w : option (option lv)) : option lv :=
+  if gen_builder_max_before_install
+  then match w with Some f => f | None => gen_builder_default_max end
+  else cur.
+
 (** * Encodings for the correspondence driver *)
 (** a synthetic callsite is reported as the level of its own static metadata; any other callsite as [None] *)
 Definition cs_level_of (cs : string) : option N := option_map (fun x => rank_lv (fst x)) (assoc_str cs gen_log_cs).
